@@ -610,6 +610,18 @@ class Translator:
                 break
             else:
                 fail(em2.rel, node, 'ExprDomain.as_quantity: unexpected else branch')
+        # (g) Expr.magnitude of a real-valued expression
+        mg = method(ex, 'magnitude', xm.rel)
+        blocks = [st for st in mg.body if isinstance(st, ast.If) and ast.unparse(st.test) == 'self.is_real']
+        if len(blocks) != 1 or blocks[0].orelse:
+            fail(xm.rel, mg, 'Expr.magnitude: expected exactly one `if self.is_real:` block')
+        b = [ast.unparse(x) for x in blocks[0].body]
+        if b == ['dst = expr(abs(self.sympy))', "dst.part = 'magnitude'", 'return dst']:
+            self.mag_real_keeps = False
+        elif b == ['dst = self.__class__(abs(self.sympy), **self.assumptions)', "dst.part = 'magnitude'", 'return dst']:
+            self.mag_real_keeps = True
+        else:
+            fail(xm.rel, blocks[0], 'Expr.magnitude: unrecognised real-valued branch')
         # (f) as_expr() of every class: `return self` or `return <Class>(self)`
         self.as_expr_cls = {}
         name2key = {cn: k for k, cn in self.classmap.items()}
@@ -853,7 +865,7 @@ class Translator:
         out.append('  mul_keeps_units := %s; div_keeps_units := %s;' % tuple('true' if self.keeps_units[m] else 'false' for m in ('__mul__', '__truediv__')))
         out.append('  rdiv_keeps_units := %s; compat_guard := %s; add_keeps_units := %s; ft_keeps_units := %s;' % tuple(
             'true' if b else 'false' for b in (self.rdiv_keeps_units, self.compat_guard, self.add_keeps_units, self.ft_keeps_units)))
-        out.append('  asq := gen_asq; as_expr_cls := gen_as_expr_cls; sites := gen_sites; flag_reads := gen_flag_reads |}.')
+        out.append('  mag_real_keeps := %s; asq := gen_asq; as_expr_cls := gen_as_expr_cls; sites := gen_sites; flag_reads := gen_flag_reads |}.' % ('true' if self.mag_real_keeps else 'false'))
         return '\n'.join(out) + '\n'
 
 
